@@ -4338,7 +4338,7 @@ void NifFile::UpdateSkinPartitions(NiShape* shape) {
 	std::vector<std::set<int>> partBones(skinPart->partitions.size());
 	for (size_t triIndex = 0; triIndex < tris.size(); ++triIndex) {
 		int partInd = triParts[triIndex];
-		if (partInd < 0)
+		if (partInd < 0 || partInd >= static_cast<int>(partBones.size()))
 			continue;
 
 		Triangle tri = tris[triIndex];
